@@ -326,4 +326,5 @@ LEVEL_NOTE = ("Trusted: Coq kernel, extraction + OCaml driver, Rust harness and 
               "iterators are arguments / per-damage descriptions, tied to the real code by the engines only; timers, gate events during a BGP session (engine bgpend) and "
               "the accept loop are outside the BGP byte model; allocation of a hostile declared length (BMP: up to 4 GiB before any byte of the body arrives; MRT: a "
               "decompression bomb) is noted, not run.")
-TECHNIQUE = "Coq proof by induction over read-event scripts (termination measure, unreachable panic sites) + model/implementation correspondence on hostile streams"
+TECHNIQUE = ("Coq proof by induction over read-event scripts / octet streams / schedules (termination measure, unreachable panic sites, routecore as a function "
+             "argument) + model/implementation correspondence on hostile BMP streams, BGP connections over loopback TCP and damaged MRT files")
